@@ -396,7 +396,16 @@ func runC12For(s *kernel.Sim, prop, cfg string) {
 			rq.conf.RuleList = &filter.ConfigRuleList{IDs: ids, Enabled: true}
 			rq.conf.Parental.Enabled = true
 			rq.conf.Parental.BlockedServices = []filter.BlockedServiceID{"svc_a"}
-			rq.conf.Custom.Enabled, rq.conf.Custom.Rules = false, nil
+			rq.conf.Custom = &filter.ConfigCustom{ID: rq.name, UpdateTime: rq.conf.Custom.UpdateTime}
+		}
+		if len(rs) >= 4 {
+			// And two that are devices of one profile, with a custom rule for
+			// one of them only.
+			rs[2].conf.Custom = &filter.ConfigCustom{
+				ID: rs[2].name, UpdateTime: rs[2].conf.Custom.UpdateTime, Enabled: true,
+				Rules: []filter.RuleText{byClientRule(rs[2]), "||custom-" + filter.RuleText(rs[2].name) + ".test^"},
+			}
+			rs[3].conf.Custom = rs[2].conf.Custom
 		}
 		s.Install()
 		runC12ConcurrentQueries(s, prop, w, rs)
@@ -646,7 +655,7 @@ func runC12ConcurrentQueries(s *kernel.Sim, prop string, w *c12World, rs []*requ
 		task string
 	}
 	var recs []*rec
-	hosts := []string{"ads.multi-shared.com", "ads.multi-shared.com", "allowed.shared.test", "always.shared.test", marker(0, w.ver, "l0"), marker(0, w.ver, "svc")}
+	hosts := []string{"ads.multi-shared.com", "ads.multi-shared.com", "allowed.shared.test", "always.shared.test", marker(0, w.ver, "l0"), marker(0, w.ver, "svc"), byClientHost}
 	focus := kernel.Pick(t, hosts, "focus-host")
 	if t.Chance(1, 2, "focus-multi") {
 		focus = "ads.multi-shared.com"
@@ -691,6 +700,9 @@ func runC12ConcurrentQueries(s *kernel.Sim, prop string, w *c12World, rs []*requ
 		s.Logf("%s: %s asks %s/%d -> %s", r.task, r.rq.name, r.host, r.qt, clip(r.got))
 		if r.got != "none" {
 			s.MarkNontrivial()
+		}
+		if !judgeByClient(s, prop, r.rq, r.host, r.qt, r.got) {
+			return
 		}
 		if r.got != want {
 			s.Failf(class, witness,
